@@ -4,6 +4,7 @@ CONSTANTS
   StringSlotLax = FALSE
   RangeCheck = TRUE
   AnyCimIntAsIs = FALSE
+  ArrayHeadShortcut = FALSE
   Deltas <- DeltasSmall
 INVARIANT ImplWithinReq
 CHECK_DEADLOCK FALSE
